@@ -1626,6 +1626,8 @@ EnsureSizeAux(uint32 size, bool setNumItems, uint32 extraPreallocs, ItemType ** 
 {
    if (retOldArray) *retOldArray = NULL;  // default value, will be set non-NULL iff the old array needs deleting later
 
+   if ((allowShrink)&&(setNumItems == false)&&(size < _itemCount)) size = _itemCount;  // never shrink the array below the number of items we need to keep
+
    if ((_queue == NULL)||(allowShrink ? (_queueSize != (size+extraPreallocs)) : (_queueSize < size)))
    {
       const uint32 sqLen = ARRAYITEMS(_smallQueue);
@@ -1640,8 +1642,9 @@ EnsureSizeAux(uint32 size, bool setNumItems, uint32 extraPreallocs, ItemType ** 
 
       if (_queue)  // just to make Coverity happy
       {
-         for (uint32 i=0; i<_itemCount; i++)
-            newQueue[i] = QQ_PlunderItem(GetItemAtUnchecked(i));  // we know that (_itemCount < size)
+         const uint32 numItemsToKeep = setNumItems ? muscleMin(_itemCount, size) : _itemCount;  // if we are truncating, the items past (size) aren't kept
+         for (uint32 i=0; i<numItemsToKeep; i++)
+            newQueue[i] = QQ_PlunderItem(GetItemAtUnchecked(i));  // we know that (numItemsToKeep <= newQLen)
       }
 
       if (setNumItems) _itemCount = size;
